@@ -299,6 +299,11 @@ func (w *PollWorker) Process(mesg *aio.Message) {
 		return
 	}
 
+	if data == nil {
+		mesg.Done(false, fmt.Errorf("missing data for poll receiver"))
+		return
+	}
+
 	// check if we have a connection
 	conn, ok := w.connections.get(data.Group, data.Id)
 	if !ok {
